@@ -81,7 +81,9 @@ pub const ANTI_SCRATCH_OPCODE: u16 = 99;
 pub const NOP_OPCODE: u16 = 70;
 
 #[derive(Debug, Clone)]
-pub struct Table { pub cfg: TableCfg, pub entries: Vec<Entry>, pub by_opcode: BTreeMap<u16, usize> }
+pub struct Table { pub cfg: TableCfg, pub entries: Vec<Entry>, pub by_opcode: BTreeMap<u16, usize>,
+    /// EoSD-style languages: an argument is a register iff its value is one of these ids (no param mask)
+    pub regs_by_value: Option<std::collections::BTreeSet<i32>> }
 
 impl Table {
     pub fn new(cfg: &TableCfg) -> Table {
@@ -156,7 +158,25 @@ impl Table {
             add(sig.into(), None, Some(name), &mut e);
         }
         let by_opcode = e.iter().enumerate().map(|(i, x)| (x.opcode, i)).collect();
-        Table { cfg: cfg.clone(), entries: e, by_opcode }
+        Table { cfg: cfg.clone(), entries: e, by_opcode, regs_by_value: None }
+    }
+
+    /// Build a table from a game's built-in (core) mapfile: opcode -> (signature string, intrinsic string) is data
+    /// shipped with truth; the *meaning* of each intrinsic kind is M1's own.  `extra` adds user marker instructions.
+    pub fn from_core(game: truth::Game, language: LanguageKey, extra: &[(u16, &str, &str)], regs_by_value: bool) -> Table {
+        let mut scope = truth::Builder::new().capture_diagnostics(true).build();
+        let mut truth = scope.truth();
+        let m = truth::verif_hooks::core_mapfile(truth.ctx().emitter, game, language);
+        let intr: BTreeMap<i32, String> = m.ins_intrinsics.iter().map(|(k, v)| (*k, v.value.clone())).collect();
+        let mut e: Vec<Entry> = vec![];
+        for (op, sig) in &m.ins_signatures {
+            let kind = intr.get(op).and_then(|s| parse_intrinsic(s));
+            e.push(Entry { opcode: *op as u16, sig: sig.value.clone(), kind, name: None });
+        }
+        for (op, name, sig) in extra { e.push(Entry { opcode: *op, sig: sig.to_string(), kind: None, name: Some(name.to_string()) }); }
+        let by_opcode = e.iter().enumerate().map(|(i, x)| (x.opcode, i)).collect();
+        let regs = if regs_by_value { Some(m.gvar_types.iter().map(|(k, _)| *k).collect()) } else { None };
+        Table { cfg: TableCfg::FULL, entries: e, by_opcode, regs_by_value: regs }
     }
 
     pub fn get(&self, opcode: u16) -> Option<&Entry> { self.by_opcode.get(&opcode).map(|&i| &self.entries[i]) }
@@ -192,6 +212,35 @@ impl Table {
         }
         s
     }
+}
+
+fn static_op(op: &str) -> Option<&'static str> {
+    ARITH.iter().chain(CMPS.iter()).chain(BITS.iter()).chain(["=", "+=", "-=", "*=", "/=", "%=", "|=", "^=", "&=", "<<=", ">>=", ">>>=", "!", "~", "sin", "cos", "sqrt", "tan", "asin", "acos", "atan"].iter()).find(|x| **x == op).copied()
+}
+
+/// `Name(op="x"; type="int")` -> K (None for intrinsics M1 does not model, e.g. calls)
+pub fn parse_intrinsic(s: &str) -> Option<K> {
+    let (name, rest) = s.split_once('(')?;
+    let attr = |key: &str| -> Option<String> {
+        let pat = format!("{key}=\"");
+        let i = rest.find(&pat)? + pat.len();
+        let j = rest[i..].find('"')? + i;
+        Some(rest[i..j].to_string())
+    };
+    let is_float = attr("type").map(|t| t == "float");
+    let op = attr("op");
+    Some(match name.trim() {
+        "Jmp" => K::Jmp,
+        "Interrupt" => K::Interrupt,
+        "CountJmp" => match op.as_deref() { None | Some("!=") => K::CountJmpNe, Some(">") => K::CountJmpGt, _ => return None },
+        "AssignOp" => K::Assign(static_op(&op?)?, is_float?),
+        "BinOp" => K::Bin(static_op(&op?)?, is_float?),
+        "UnOp" => K::Un(static_op(&op?)?, is_float?),
+        "CondJmp" => K::CondJmp(static_op(&op?)?, is_float?),
+        "DedicatedCmp" => K::Cmp(is_float?),
+        "DedicatedCmpJmp" => K::CmpJmp(static_op(&op?)?),
+        _ => return None,
+    })
 }
 
 #[derive(Debug, Clone, Copy)]
@@ -433,7 +482,9 @@ pub enum Arg { Imm(Val), Reg(i32), Skip }
 
 /// Decode args of an instruction according to the harness's own signature knowledge.
 /// Only the letters the harness's tables use: S f o t _
-pub fn decode_args(sig: &str, instr: &RawInstr) -> Result<Vec<(char, Arg)>, String> {
+pub fn decode_args(sig: &str, instr: &RawInstr) -> Result<Vec<(char, Arg)>, String> { decode_args_ex(sig, instr, None) }
+
+pub fn decode_args_ex(sig: &str, instr: &RawInstr, regs_by_value: Option<&std::collections::BTreeSet<i32>>) -> Result<Vec<(char, Arg)>, String> {
     let blob = &instr.args_blob;
     let letters: Vec<char> = sig.chars().collect();
     if blob.len() != letters.len() * 4 { return Err(format!("blob length {} != 4*{} for signature '{}'", blob.len(), letters.len(), sig)); }
@@ -446,7 +497,14 @@ pub fn decode_args(sig: &str, instr: &RawInstr) -> Result<Vec<(char, Arg)>, Stri
             out.push((c, Arg::Skip));
             continue; // padding takes no mask bit
         }
-        let is_reg = instr.param_mask & (1 << mask_bit) != 0;
+        let is_reg = match regs_by_value {
+            None => instr.param_mask & (1 << mask_bit) != 0,
+            Some(set) => match c {
+                'S' => set.contains(&(raw as i32)),
+                'f' => { let f = f32::from_bits(raw); f == f.round() && f.abs() < 1.0e6 && set.contains(&(f as i32)) },
+                _ => false,
+            },
+        };
         mask_bit += 1;
         let arg = match c {
             'S' | 'o' | 't' => if is_reg { Arg::Reg(raw as i32) } else { Arg::Imm(Val::I(raw as i32)) },
@@ -462,7 +520,7 @@ pub fn decode_args(sig: &str, instr: &RawInstr) -> Result<Vec<(char, Arg)>, Stri
         if (c == 'o' || c == 't') && is_reg { return Err(format!("register in jump arg {c}")); }
         out.push((c, arg));
     }
-    if instr.param_mask >> mask_bit != 0 { return Err(format!("param mask {:#x} has bits beyond {} args", instr.param_mask, mask_bit)); }
+    if regs_by_value.is_none() && instr.param_mask >> mask_bit != 0 { return Err(format!("param mask {:#x} has bits beyond {} args", instr.param_mask, mask_bit)); }
     Ok(out)
 }
 
@@ -513,6 +571,11 @@ fn cmp_holds(op: &str, ord: i32) -> bool {
 }
 
 pub fn run_m1(table: &Table, instrs: &[RawInstr], val: &Valuation, difficulty: u32, header_size: usize) -> Result<Trace, String> {
+    run_m1_ex(table, instrs, val, difficulty, header_size, false)
+}
+
+/// `relative_jumps`: jump offsets are relative to the start of the jumping instruction (old ECL)
+pub fn run_m1_ex(table: &Table, instrs: &[RawInstr], val: &Valuation, difficulty: u32, header_size: usize, relative_jumps: bool) -> Result<Trace, String> {
     let mut regs: BTreeMap<i32, Val> = val.clone();
     let mut offsets = vec![];
     let mut off = 0u64;
@@ -542,14 +605,16 @@ pub fn run_m1(table: &Table, instrs: &[RawInstr], val: &Valuation, difficulty: u
         if time < ins.time { real_time += ins.time - time; time = ins.time; }
         if ins.difficulty & (1u8 << difficulty) == 0 { pc += 1; continue; }
         let entry = table.get(ins.opcode).ok_or_else(|| format!("unknown opcode {}", ins.opcode))?;
-        let args = decode_args(&entry.sig, ins)?;
+        let args = decode_args_ex(&entry.sig, ins, table.regs_by_value.as_ref())?;
         let real: Vec<&(char, Arg)> = args.iter().filter(|(c, _)| *c != '_').collect();
+        let cur_offset = offsets[pc] as i64;
         // locate jump parts
         let jump_target = |regs: &BTreeMap<i32, Val>| -> Result<(usize, Option<i32>), String> {
             let o = real.iter().find(|(c, _)| *c == 'o').ok_or("no o arg")?;
             let t = real.iter().find(|(c, _)| *c == 't');
             let o = read(regs, &o.1, false)?.as_int();
             let t = match t { Some(t) => Some(read(regs, &t.1, false)?.as_int()), None => None };
+            let o = if relative_jumps { (cur_offset + o as i64) as i32 } else { o };
             Ok((index_of(o)?, t))
         };
         macro_rules! do_jump { () => {{
